@@ -70,6 +70,12 @@ pub struct Swarm {
     pub extremes: bool,
     #[serde(default)]
     pub long_blobs: bool,
+    /// aim-to-fail multi-row INSERTs only ever spoil row 0 (keeps clear of the partial multi-row INSERT finding KF-C06-01)
+    #[serde(default)]
+    pub avoid_partial_multirow: bool,
+    /// percent of CHECK constraints using forms the engine's evaluator mishandles (BETWEEN, <>): KF-C09-01
+    #[serde(default)]
+    pub p_check_odd: u32,
     /// single-column projections in SELECT (off by default: projection semantics are C14/C15 territory)
     #[serde(default)]
     pub projections: bool,
@@ -237,10 +243,22 @@ impl Gen {
                     c.unique = true;
                 }
                 if rng.chance(sw.p_check as u64, 100) && ty != Ty::Text {
-                    c.check = Some(match rng.below(3) {
-                        0 => Pred::Cmp(c.name.clone(), CmpOp::Ge, Val::Int(0)),
-                        1 => Pred::Between(c.name.clone(), Val::Int(-2), Val::Int(sw.key_domain + 4)),
-                        _ => Pred::Cmp(c.name.clone(), CmpOp::Ne, Val::Int(3)),
+                    c.check = Some(if rng.chance(sw.p_check_odd as u64, 100) {
+                        if rng.chance(1, 2) {
+                            Pred::Between(c.name.clone(), Val::Int(-2), Val::Int(sw.key_domain + 4))
+                        } else {
+                            Pred::Cmp(c.name.clone(), CmpOp::Ne, Val::Int(3))
+                        }
+                    } else {
+                        match rng.below(4) {
+                            0 => Pred::Cmp(c.name.clone(), CmpOp::Ge, Val::Int(0)),
+                            1 => Pred::Cmp(c.name.clone(), CmpOp::Gt, Val::Int(-3)),
+                            2 => Pred::Cmp(c.name.clone(), CmpOp::Le, Val::Int(sw.key_domain + 6)),
+                            _ => Pred::And(
+                                Box::new(Pred::Cmp(c.name.clone(), CmpOp::Ge, Val::Int(-1))),
+                                Box::new(Pred::Cmp(c.name.clone(), CmpOp::Lt, Val::Int(sw.key_domain + 9))),
+                            ),
+                        }
                     });
                 }
                 if ty != Ty::Text && !c.unique && rng.chance(sw.p_fk as u64, 100) {
@@ -412,7 +430,7 @@ impl Gen {
         }
         if aim_fail {
             // spoil one row (the k-th, k chosen anywhere)
-            let k = rng.usize_below(rows.len());
+            let k = if sw.avoid_partial_multirow { 0 } else { rng.usize_below(rows.len()) };
             let mut spoiled = false;
             let mut order: Vec<usize> = (0..use_cols.len()).collect();
             rng.shuffle(&mut order);
@@ -433,7 +451,7 @@ impl Gen {
                         break;
                     }
                 }
-                if c.not_null && !c.pk && rng.chance(1, 2) {
+                if c.not_null && !c.pk && c.default.is_none() && rng.chance(1, 2) {
                     rows[k][j] = Val::Null;
                     spoiled = true;
                     break;
@@ -516,7 +534,7 @@ impl Gen {
                 }
                 continue;
             }
-            if aim_fail && c.not_null && rng.chance(1, 2) {
+            if aim_fail && c.not_null && c.default.is_none() && rng.chance(1, 2) {
                 sets.push((c.name.clone(), SetExpr::Const(Val::Null)));
                 continue;
             }
@@ -851,6 +869,8 @@ pub fn swarm_for(profile: &str, rng: &mut Rng, thorough: bool) -> Swarm {
         p_returning: 20,
         extremes: false,
         long_blobs: false,
+        avoid_partial_multirow: profile != "fail",
+        p_check_odd: 0,
         projections: false,
         bulk_max: 300,
         cfg: if rng.chance(1, 2) { DbConfig::durable() } else { DbConfig::plain() },
@@ -914,6 +934,7 @@ pub fn swarm_for(profile: &str, rng: &mut Rng, thorough: bool) -> Swarm {
             sw.p_unique = 40;
             sw.p_notnull = 40;
             sw.p_check = 40;
+            sw.p_check_odd = 15;
             sw.p_fk = 35;
             sw.p_pk = 90;
             sw.p_default = 25;
